@@ -14,7 +14,7 @@ func verifWithErc20() (*verifEnv, erc20keeper.Keeper, *models.Bank, *models.Erc2
 	ms := models.NewMultiStore(verifModule, erc20types.StoreKey)
 	e := &verifEnv{ms: ms}
 	e.ctx = models.NewContext(ms, 100, 1700000000)
-	bank, tok, evm := models.NewBank(), models.NewErc20(), models.NewEVM()
+	bank, tok, evm := models.NewBank(ms), models.NewErc20(ms), models.NewEVM()
 	ek := erc20keeper.NewKeeper(models.NewStoreKey(erc20types.StoreKey), models.NewCodec(nil), models.Accounts{}, bank, evm, tok, nil,
 		"fx10d07y265gmmuvt4z0w9aw880jnsr700jqjzsmz")
 	e.k = Keeper{moduleName: verifModule, cdc: models.NewCodec(verifRealCodec), storeKey: models.NewStoreKey(verifModule),
